@@ -18,6 +18,7 @@ def conds_Mux_serveHTTP : List String := [
    "return err",
    "defer conn.Close()",
    "if herr != nil",
+   "if max := ws.MaxControlFramePayloadSize - 2; len(reason) > max",
    "if err != nil",
    "return err",
    "if _, err := conn.Write(b); err != nil",
